@@ -75,7 +75,7 @@ pub enum Engine {
     SetHist,
     SetAlg,
     MapEq,
-    Bulk,
+    Wide,
     Fmt,
 }
 
@@ -86,7 +86,7 @@ impl Engine {
             Engine::SetHist => "sethist",
             Engine::SetAlg => "setalg",
             Engine::MapEq => "mapeq",
-            Engine::Bulk => "bulk",
+            Engine::Wide => "wide",
             Engine::Fmt => "fmt",
         }
     }
@@ -96,7 +96,7 @@ impl Engine {
             "sethist" => Engine::SetHist,
             "setalg" => Engine::SetAlg,
             "mapeq" => Engine::MapEq,
-            "bulk" => Engine::Bulk,
+            "wide" => Engine::Wide,
             "fmt" => Engine::Fmt,
             _ => return None,
         })
@@ -107,7 +107,7 @@ impl Engine {
             Engine::SetHist => 1,
             Engine::SetAlg => 2,
             Engine::MapEq => 3,
-            Engine::Bulk => 4,
+            Engine::Wide => 4,
             Engine::Fmt => 5,
         }
     }
@@ -117,7 +117,7 @@ impl Engine {
             1 => Engine::SetHist,
             2 => Engine::SetAlg,
             3 => Engine::MapEq,
-            4 => Engine::Bulk,
+            4 => Engine::Wide,
             _ => Engine::Fmt,
         }
     }
